@@ -73,7 +73,8 @@ def gen_run(seed, tier, i):
     nops = s_ops.randint(1, plan["max_ops"])
     ops = [{"op": s_ops.choice(enabled), "target": s_ops.randrange(64)} for _ in range(nops)]
     run = {"property": NAME, "family": st["family"], "triples": st["triples"], "solver": solver,
-           "tie": s_cfg.randrange(1 << 10), "ops": ops, "loglevel": s_cfg.choice(["off", "off", "INFO", "DEBUG"])}
+           "tie": s_cfg.randrange(1 << 10), "ops": ops, "loglevel": s_cfg.choice(["off", "off", "INFO", "DEBUG"]),
+           "route": s_cfg.choice(solve_engine.ROUTES)}
     s_fault = rng.stream(NAME, tier, seed, i, "faults")
     if solver == "sim" and s_fault.random() < 0.15:
         # the fault-injecting configuration (kept apart from the fault-free one, whose oracle is strict): solves
@@ -295,11 +296,11 @@ def execute_run(run, tmpdir):
         backend = {"sim": "sim-api", "none": "none", "real-cbc": "real-cbc"}[run["solver"]]
         solver = env.configure(backend, False, True, [{"kind": "ok", "tie": run["tie"]}])
         env.set_default(solver)
-        pool = [solve_engine.make_bpseq(run["triples"])]
+        pool = [solve_engine.make_bpseq(run["triples"], run.get("route", "entries"), env.tmpdir)]
         births = [copy.deepcopy(run["triples"])]
         origin = ["original"]
         if run.get("sibling"):
-            pool.append(solve_engine.make_bpseq(run["sibling"]))
+            pool.append(solve_engine.make_bpseq(run["sibling"], run.get("route", "entries"), env.tmpdir))
             births.append(copy.deepcopy(run["sibling"]))
             origin.append("sibling")
         touched = set()
@@ -510,6 +511,8 @@ def shrink_candidates(run, v):
         yield {k: v for k, v in run.items() if k != "sibling"}
     if run.get("loglevel", "off") != "off":
         yield dict(run, loglevel="off")
+    if run.get("route", "entries") != "entries":
+        yield dict(run, route="entries")
     if run.get("faulty"):
         for k, o in enumerate(ops):
             if o.get("fault"):
